@@ -185,26 +185,46 @@ _DONE = re.compile(r'<<\s*"DONE",\s*(\d+),\s*(\d+)\s*>>')
 
 def tlc_trace(spec, cfg, tracefile, workdir, timeout=1800, heap="3g"):
     """validate one ndjson trace file; returns (violations, n_events_consumed, out)
-    where violations = [(trace id, line, [tags])]"""
+    where violations = [(trace id, line, [tags])].  If TLC does not finish in time, the violations it has
+    already printed are still its judgements of recorded steps: they are returned (n = -1); a timeout without
+    any is an infrastructure failure."""
     meta = os.path.join(workdir, "meta_" + os.path.basename(tracefile))
     shutil.rmtree(meta, ignore_errors=True)
     cmd = _java(heap) + ["-workers", "1", "-metadir", meta, "-noGenerateSpecTE",
                          "-config", os.path.join(SPEC, cfg), os.path.join(SPEC, spec)]
     env = dict(os.environ, VERIF_TRACE=tracefile)
+    outpath = os.path.join(workdir, "tlcout_" + os.path.basename(tracefile) + ".txt")
+    timed_out = False
     try:
-        p = subprocess.run(cmd, cwd=workdir, env=env, capture_output=True, text=True, timeout=timeout)
-    except subprocess.TimeoutExpired:
-        raise Infra("TLC timeout validating %s" % tracefile)
+        with open(outpath, "w") as fo:
+            proc = subprocess.Popen(cmd, cwd=workdir, env=env, stdout=fo, stderr=subprocess.STDOUT, text=True)
+            try:
+                proc.wait(timeout=timeout)
+            except subprocess.TimeoutExpired:
+                timed_out = True
+                proc.kill()
+                proc.wait()
+        with open(outpath) as fi:
+            out = fi.read()
     finally:
         shutil.rmtree(meta, ignore_errors=True)
-    out = p.stdout + p.stderr
-    d = _DONE.search(out)
-    if not d or "Model checking completed. No error has been found." not in out:
-        raise Infra("trace validation of %s did not run to completion:\n%s" % (tracefile, out[-4000:]))
+        try:
+            os.remove(outpath)
+        except OSError:
+            pass
     viols = []
     for m in _VIOL.finditer(out):
         tags = re.findall(r'"([^"]+)"', m.group(3))
         viols.append((int(m.group(1)), int(m.group(2)), tags))
+    if timed_out:
+        if not viols:
+            raise Infra("TLC timeout validating %s" % tracefile)
+        log("  TLC did not finish %s in %d s; the %d violations it had judged by then are used" %
+            (os.path.basename(tracefile), timeout, len(viols)))
+        return viols, -1, out
+    d = _DONE.search(out)
+    if not d or "Model checking completed. No error has been found." not in out:
+        raise Infra("trace validation of %s did not run to completion:\n%s" % (tracefile, out[-4000:]))
     return viols, int(d.group(1)), out
 
 
@@ -580,7 +600,7 @@ def _reproduces(st, driver, work, replay_path, tag, _attempt=0):
     if env == "RACELOG":
         env = dict(GORACE="log_path=%s exitcode=0" % (trace + ".race"), VERIF_CONC_REPS="25")
     run_driver(driver, [st.family, "run", "-cases", cases, "-out", trace], env=env)
-    viols, n, _ = tlc_trace(st.trace[0], st.trace[1], trace, work)
+    viols, n, _ = tlc_trace(st.trace[0], st.trace[1], trace, work, timeout=600)
     if any(tag in tags for t_, _, tags in viols if t_ == doc["case"].get("t", t_)):
         return True
     if st.race and _attempt < 4:
